@@ -155,6 +155,51 @@ def raw_sql_scenario(coll, stats):
                      'raw-sql:%s' % name, replay, {'rows': str(left)[:200]})
 
 
+def unmanaged_model_scenario(coll, stats):
+    """A brand-new app with an ordinary model and a model that Django does
+    not manage (Meta.managed = False), alone and next to a second new app:
+    every model a creating_models/created_models pair names must have had
+    its table created between the pair."""
+    from django_evolution import management
+    from vf.spec import F, M, A, P
+    base = c03.narrow_start()
+    for two in (False, True):
+        proj = S.clone(base)
+        legacy = M('Legacy', [F('x', 'Char', max_length=20)])
+        legacy['meta']['managed'] = False
+        proj['apps'].append(A('vn1', [
+            M('Fresh', [F('t', 'Char', max_length=20)]), legacy]))
+        if two:
+            proj['apps'].append(A('vn2', [M('Other', [F('u', 'Int',
+                                                        null=True)])]))
+        tables = {}
+        for app in proj['apps']:
+            for m in app['models']:
+                tables[(app['label'], m['name'])] = S.table_name(
+                    app['label'], m)
+        img = D.baseline(base)
+        MZ.install(proj)
+        B.restore(img, 'default')
+        B.reset_globals()
+        seq = [0]
+        tracer = O.Tracer('default', seq=seq)
+        lock = management._evolve_lock
+        with O.SignalLog(seq) as log:
+            res = D.d2_all(tracer=tracer)
+        stats['extra_runs'] += 1
+        name = 'two-new-apps' if two else 'one-new-app'
+        replay = {'scenario': 'unmanaged-model', 'variant': name}
+        if not res.ok:
+            coll.add('C17|unmanaged-model-run-fails|%s|%s' % (
+                res.exc_type, name), replay, {'error': str(res.exc)[:200]})
+            continue
+        for clause, detail in acceptor.check(
+                log.events, tracer.statements, 'ok', lock,
+                management._evolve_lock, saved=True, model_tables=tables):
+            coll.add('C17|%s|unmanaged-model:%s' % (clause, name), replay,
+                     detail)
+
+
 def sql_file_scenario(coll, stats):
     """An app whose pending evolutions mix SQL files and Python modules
     (in both orders, generic and database-specific file names): every
@@ -364,6 +409,7 @@ def run(tier, seed, confirm=True):
     split_batch_scenario(coll, stats)
     raw_sql_scenario(coll, stats)
     sql_file_scenario(coll, stats)
+    unmanaged_model_scenario(coll, stats)
     handover_scenarios(coll, stats, tier)
     coverage = {
         'evaluations': total['runs'] + stats['extra_runs'],
@@ -396,7 +442,10 @@ def replay(path):
         coll = findings.Collector('C17')
         extra_scenarios(coll, {'extra_runs': 0})
         split_batch_scenario(coll, {'extra_runs': 0})
-        handover_scenarios(coll, {'extra_runs': 0}, 'quick')
+        raw_sql_scenario(coll, {'extra_runs': 0})
+        sql_file_scenario(coll, {'extra_runs': 0})
+        unmanaged_model_scenario(coll, {'extra_runs': 0})
+        handover_scenarios(coll, {'extra_runs': 0}, 'thorough')
         for fp in coll.by_fp:
             print('  ', fp)
         if doc['fingerprint'] in coll.by_fp:
